@@ -1260,6 +1260,11 @@ class Interp:
                 return h
             raise Unsupported('set of symbolic')
         if name == 'dict':
+            if len(args) == 1 and not kwargs and isinstance(a0, (SymIter, SSeq)):
+                # dict(zip(keys, values)) over a symbolic number of pairs: a finite map, looked up with .get / [] (the LAST pair with the key counts)
+                it = self.iterate(a0, line)
+                if isinstance(it, SymIter):
+                    return self.unit.sym_dict(self, it, line)
             if not args and is_concrete(kwargs):
                 return dict(**kwargs)
             if is_concrete(args):
